@@ -78,7 +78,12 @@ impl Debug for ConnectionMeta {
                    channel: {:?}, \
                    sni_auth_creds: {:?} \
                }}",
-            sni_ref, self.protocol, self.channel, self.sni_auth_creds,
+            sni_ref,
+            self.protocol,
+            self.channel,
+            self.sni_auth_creds
+                .as_ref()
+                .map(|_| "scrubbed"),
         )
     }
 }
@@ -321,7 +326,8 @@ impl TlsDemux {
                 None,
             )
         } else {
-            return Err(format!("Unexpected SNI {}", sni));
+            // the first label may be credentials for a host that is not (or no longer) served
+            return Err(format!("Unexpected SNI {}", net_utils::scrub_sni(sni)));
         };
 
         Ok(ConnectionMeta {
